@@ -31,7 +31,7 @@ func errorDiscipline(p *Program, f *ssa.Function, call ssa.CallInstruction, allo
 		})
 	}
 	// wrapping must keep the chain: every fmt.Errorf that takes ev uses %w
-	for _, b := range f.Blocks {
+	for _, b := range engine.BlocksInl(f) {
 		for _, in := range b.Instrs {
 			c, ok := in.(*ssa.Call)
 			if !ok || engine.CallKey(c.Common()) != "fmt.Errorf" {
@@ -88,7 +88,7 @@ func errorDiscipline(p *Program, f *ssa.Function, call ssa.CallInstruction, allo
 		return false
 	}
 	var from []engine.Point
-	for _, b := range f.Blocks {
+	for _, b := range engine.BlocksInl(f) {
 		for i := range b.Succs {
 			if l, ok := engine.EdgeLit(b, i); ok {
 				if v, isNil, ok := l.NilTest(); ok && !isNil && engine.SameValue(v, ev) {
@@ -97,7 +97,7 @@ func errorDiscipline(p *Program, f *ssa.Function, call ssa.CallInstruction, allo
 			}
 		}
 	}
-	loops := engine.RangeLoops(f)
+	loops := engine.RangeLoops(engine.InlineRoot(f))
 	loop := engine.EnclosingLoop(loops, call.(ssa.Instruction))
 	target := func(in ssa.Instruction) bool {
 		if rt, ok := in.(*ssa.Return); ok {
@@ -156,7 +156,7 @@ func nilOnError(g *ssa.Function) bool {
 		return false
 	}
 	n := 0
-	for _, b := range g.Blocks {
+	for _, b := range engine.BlocksInl(g) {
 		for _, in := range b.Instrs {
 			rt, ok := in.(*ssa.Return)
 			if !ok || !isErrReturn(rt) {
@@ -185,7 +185,7 @@ func failedResultNotUsed(r *Report, p *Program, rule string) {
 	n := 0
 	ord := map[string]int{}
 	for _, f := range p.Scanned {
-		for _, b := range f.Blocks {
+		for _, b := range engine.BlocksInl(f) {
 			for _, in := range b.Instrs {
 				call, isCall := in.(*ssa.Call)
 				if !isCall {
@@ -209,7 +209,7 @@ func failedResultNotUsed(r *Report, p *Program, rule string) {
 					continue
 				}
 				var from []engine.Point
-				for _, bb := range f.Blocks {
+				for _, bb := range engine.BlocksInl(f) {
 					for i := range bb.Succs {
 						if l, ok := engine.EdgeLit(bb, i); ok {
 							if x, isNil, isT := l.NilTest(); isT && !isNil && engine.SameValue(x, ev) {
@@ -290,7 +290,7 @@ func toleranceScope(r *Report, p *Program, rule string) {
 	ord := map[string]int{}
 	n := 0
 	for _, f := range p.Scanned {
-		for _, b := range f.Blocks {
+		for _, b := range engine.BlocksInl(f) {
 			for _, in := range b.Instrs {
 				pc, isCall := in.(*ssa.Call)
 				if !isCall {
